@@ -159,6 +159,7 @@ static int grisu3_diy_fp_encode_double(uint64_t fraction, int exponent, int frac
     int prec;
     int prec_bits;
     int half_way;
+    int is_denormal;
 
     /* When fractions in a double aren't stored with implicit msb fraction bit. */
 
@@ -234,6 +235,12 @@ static int grisu3_diy_fp_encode_double(uint64_t fraction, int exponent, int frac
      */
     mag = mag >= GRISU3_D64_EXP_POS + 1 + denorm_exp ? diy_size : mag <= denorm_exp ? 0 : mag - denorm_exp;
     prec = diy_size - mag;
+    /*
+     * A denormal result is rounded at a wider window than the `int`
+     * half-way arithmetic below can hold (it overflows from 29 bits on):
+     * such a result is never reported as exact, the caller falls back.
+     */
+    is_denormal = prec > 0;
     if (prec + log2_error_one >= diy_size) {
         int e_scale = prec + log2_error_one - diy_size - 1;
         v.f >>= e_scale;
@@ -254,7 +261,7 @@ static int grisu3_diy_fp_encode_double(uint64_t fraction, int exponent, int frac
         }
     }
     *result = grisu3_cast_double_from_diy_fp(rounded);
-    return half_way - error >= prec_bits || prec_bits >= half_way + error;
+    return !is_denormal && (half_way - error >= prec_bits || prec_bits >= half_way + error);
 }
 
 /*
